@@ -1,0 +1,13 @@
+//! Verification facade (compiled only with `--cfg rzmq_verif`).
+//!
+//! Everything here only constructs, wraps or forwards to existing crate-private
+//! items so that an external model-checking harness can drive the real code.
+//! There is no protocol logic of its own; with the cfg off nothing is compiled.
+
+pub mod core;
+pub mod engine;
+pub mod framing;
+pub mod patterns;
+pub mod runtime;
+pub mod sched;
+pub mod session;
